@@ -12,7 +12,7 @@
   Core Lean only: linked into `rtpmodel`.
 -/
 import Rtp.Go.Prim
-namespace Rtp.Model.Ext
+namespace Rtp.Model.ExtCodecs
 open Rtp
 
 /-- outcome of a pointer-receiver `Unmarshal`: what it returned, and the receiver afterwards -/
@@ -131,4 +131,4 @@ def absCaptureUnmarshal (r : AbsCaptureTime) (raw : Bytes) : Un AbsCaptureTime :
 
 def absCapture : Codec AbsCaptureTime := ⟨absCaptureMarshal, absCaptureUnmarshal⟩
 
-end Rtp.Model.Ext
+end Rtp.Model.ExtCodecs
